@@ -37,6 +37,14 @@ func genC19(t *rapid.T) C19Case {
 		c.SP.Enc.Setter = h.CertRef{Key: "E2", Window: "wide"}
 	}
 	c.SP.Skip = rapid.Bool().Draw(t, "skip")
+	if rapid.IntRange(0, 2).Draw(t, "namedZone") == 0 {
+		// a clock in a DST-observing zone, close to a transition (calendar arithmetic differs from 168 h there)
+		c.SP.NowZone = rapid.SampledFrom([]string{"America/New_York", "Europe/Berlin", "Australia/Lord_Howe", "America/Sao_Paulo", "Pacific/Chatham"}).Draw(t, "zone")
+		year := rapid.IntRange(2021, 2037).Draw(t, "year")
+		anchor := rapid.SampledFrom([][2]int{{3, 8}, {3, 25}, {4, 1}, {10, 1}, {10, 25}, {11, 1}, {9, 20}}).Draw(t, "anchor")
+		at := time.Date(year, time.Month(anchor[0]), anchor[1], 0, 0, 0, 0, time.UTC).Add(time.Duration(rapid.Int64Range(-10*24*3600, 10*24*3600).Draw(t, "offsetSec")) * time.Second)
+		c.SP.NowUnixNano = at.UnixNano() + rapid.Int64Range(0, 999999999).Draw(t, "ns")
+	}
 	c.SP.SLO = genOutText(t, "spSLO", true)
 	c.Hours = rapid.OneOf(rapid.SampledFrom([]int64{-1 << 63, -876000, -1, 0, 1, 24, 168, 10000, 876000}), rapid.Int64Range(-876000, 876000)).Draw(t, "hours")
 	if h.Open("C19", "metadata-validity-hours-as-nanoseconds") && c.SLO && c.Hours > 0 {
@@ -56,7 +64,10 @@ func kdCert(kd types.KeyDescriptor) []byte {
 
 func checkC19(c C19Case) h.Outcome {
 	o := h.Outcome{NonTrivial: true}
-	o.Classes = []string{fmt.Sprintf("slo:%v", c.SLO), "enc:" + c.SP.Enc.Mode, "sig:" + c.SP.Sig.Mode, fmt.Sprintf("signRequests:%v", c.SP.SignRequests), fmt.Sprintf("skip:%v", c.SP.Skip)}
+	if c.SP.NowZone != "" {
+		o.Classes = append(o.Classes, "clock:dst-zone")
+	}
+	o.Classes = append(o.Classes, fmt.Sprintf("slo:%v", c.SLO), "enc:"+c.SP.Enc.Mode, "sig:"+c.SP.Sig.Mode, fmt.Sprintf("signRequests:%v", c.SP.SignRequests), fmt.Sprintf("skip:%v", c.SP.Skip))
 	switch {
 	case !c.SLO:
 	case c.Hours <= 0:
@@ -267,6 +278,18 @@ func TestC19_Grid(t *testing.T) {
 					sp.NowOffset = []int{0, 330, -480}[i%3]
 					cases = append(cases, C19Case{SP: sp, SLO: slo, Hours: hrs, Alg: i})
 				}
+			}
+		}
+	}
+	// default validity across every DST transition week of two zones, both variants
+	for _, zone := range []string{"America/New_York", "Europe/Berlin", "Australia/Lord_Howe"} {
+		for _, d := range [][3]int{{2026, 3, 5}, {2026, 3, 27}, {2026, 10, 22}, {2026, 10, 29}, {2026, 4, 2}, {2026, 9, 30}} {
+			for _, slo := range []bool{false, true} {
+				sp := h.BaseSP()
+				sp.Enc = h.KeyCfg{Mode: "tls", Field: h.CertRef{Key: "E1", Window: "wide"}}
+				sp.NowZone = zone
+				sp.NowUnixNano = time.Date(d[0], time.Month(d[1]), d[2], 17, 0, 0, 0, time.UTC).UnixNano()
+				cases = append(cases, C19Case{SP: sp, SLO: slo, Hours: 0})
 			}
 		}
 	}
